@@ -209,3 +209,49 @@ def _v2_cat(prop, case, f):
     if prop == "C17":
         return f.get("kind") == "process_crash" and case.get("src") in ("test-data", "refpq") and f.get("signal") in (8, 11)
     return False
+
+
+@pred("bit-unpack-32bit-accumulator-width-ge-25")
+def _bp25(prop, case, f):
+    # cencoding.read_bitpacked accumulates bits in a uint32: once width + bit offset exceeds 32 the high bits are lost
+    if f.get("func") not in ("read_bitpacked", "hybrid") or f.get("kind") != "values_differ" or f.get("itemsize") != 4:
+        return False
+    if (f.get("width") or 0) < 25:
+        return False
+    if f.get("func") == "hybrid":
+        return any(k == "bp" for k, n in f.get("plan") or [])
+    return True
+
+
+@pred("delta-unpack-miniblock-width-ge-29")
+def _delta29(prop, case, f):
+    # cencoding.delta_read_bitpacked refills before draining with int8 bit counters: wrong values from 29 bits per delta on;
+    # from 57 bits the shift count reaches 64 and the byte reader runs away (segfault)
+    if f.get("kind") == "values_differ" and f.get("func") == "delta":
+        return (f.get("max_miniblock_width") or 0) >= 29
+    if f.get("kind") == "process_crash" and case.get("fn") == "delta":
+        return case.get("w", 0) >= 57
+    return False
+
+
+@pred("encode-bitpacked-32bit-accumulator-width-ge-25")
+def _enc25(prop, case, f):
+    return (f.get("func") == "encode_bitpacked" and f.get("kind") in ("decode_of_encode_differs", "encoder_output_decodes_differently")
+            and (f.get("width") or 0) >= 25)
+
+
+@pred("write-bitpacked1-bit-order-and-cursor")
+def _wbp1(prop, case, f):
+    # documented as np.packbits with an output array; packs the partial last byte shifted the wrong way and advances the input
+    # cursor by count*4
+    return f.get("func") == "write_bitpacked1" and f.get("kind") in ("values_differ", "input_cursor")
+
+
+@pred("bitpacked-run-of-width-0-consumes-one-byte")
+def _bp0(prop, case, f):
+    # read_bitpacked pre-reads one input byte before looking at the width: a zero-width bit-packed run (no payload bytes)
+    # swallows the header of the run that follows it
+    if f.get("func") != "hybrid" or f.get("width") != 0 or f.get("kind") not in ("output_cursor", "values_differ", "input_cursor"):
+        return False
+    plan = f.get("plan") or []
+    return any(k == "bp" and i < len(plan) - 1 for i, (k, n) in enumerate(plan))
